@@ -714,7 +714,9 @@ def sweep_programs(cat):
                 vs.append((d["name"], v, d["via"] == "derive" and i == 0))
         out.append((prog, vs))
 
-    strs = list(dict.fromkeys(cat["renames"] + SWEEP_EXTRA))
+    # the catalogue strings with outer white space / controls / lone delimiters / case mappings (the ordinary ones occur in
+    # every position of the enumerated family already) and the extra hard cases
+    strs = list(dict.fromkeys(cat["renames"][10:] + SWEEP_EXTRA))
     for i, s_ in enumerate(strs):
         a1, a2, a3 = attrs[i % 4], attrs[(i + 1) % 4], attrs[(i + 2) % 4]
         if s_ in ("Bee", "value"):
@@ -814,29 +816,40 @@ def run(tier, replay):
     thorough = tier == "thorough"
     work = vlib.workdir("C14")
 
-    # ---- 1. the theorems on the model -------------------------------------------------------------
-    if not replay and not os.environ.get("C14_SKIP_MC"):      # (C14_SKIP_MC: debugging aid only)
+    # ---- 1. the theorems on the model (runs in the background while the programs are generated, built and run) ----
+    def model_part():
         acts_all = ["DeclStart", "DeclAddField", "DeclAddVariant", "LitLeaf", "LitOpen", "LitClose"]
         # (cfg, workers, coverage / vacuity guard for these actions)
-        mcs = [("MC_JsonMap_quick.cfg", 8, acts_all),
-               ("MC_JsonMap_pairs.cfg", 4, ["DeclStart", "DeclAddField", "DeclAddVariant"])]
+        mcs = [("MC_JsonMap_quick.cfg", 4, acts_all),
+               ("MC_JsonMap_pairs.cfg", 2, ["DeclStart", "DeclAddField", "DeclAddVariant"])]
         if thorough:
             # the large configurations run without -coverage (it halves TLC's speed); the same actions are guarded above
-            mcs += [("MC_JsonMap_thorough.cfg", 8, None), ("MC_JsonMap_triples.cfg", 8, None)]
+            mcs += [("MC_JsonMap_thorough.cfg", 8, None), ("MC_JsonMap_triples.cfg", 4, None)]
         for cfg, workers, acts in mcs:
-            r = tlc("MC_JsonMap.tla", cfg, workers=workers, coverage=acts is not None, timeout=2400, heap="4g")
+            r = tlc("MC_JsonMap.tla", cfg, workers=workers, coverage=acts is not None, timeout=2400, heap="4g", work_id="c14-mc")
             ctx.add_tlc("theorems, Dev={} (%s)" % cfg, r)
             ctx.require_tlc_ok(cfg, r)
             if acts:
                 ctx.require_cover(cfg, r, acts)
-        # the tiny sensitivity runs are JVM start-up bound: four at a time
-        with ThreadPoolExecutor(max_workers=4) as ex:
+        # the tiny sensitivity runs are JVM start-up bound: three at a time
+        with ThreadPoolExecutor(max_workers=3) as ex:
             sens = list(ex.map(lambda c: tlc("MC_JsonMap.tla", c[0], workers=1, timeout=600, work_id="c14-" + c[1] + c[2]), SENSITIVITY))
         for (cfg, dev, inv), r in zip(SENSITIVITY, sens):
             ctx.add_tlc("sensitivity: Dev={%s} must violate %s" % (dev, inv), r)
             if r.violation != "invariant" or r.violated_name != inv:
                 raise vlib.ToolError("model lost sensitivity: Dev={%s} no longer violates %s (%s %s)" % (dev, inv, r.violation, r.violated_name))
 
+    bg = ThreadPoolExecutor(max_workers=1)
+    model_job = None
+    if not replay and not os.environ.get("C14_SKIP_MC"):      # (C14_SKIP_MC: debugging aid only)
+        model_job = bg.submit(model_part)
+    try:
+        return _conformance(ctx, tier, thorough, replay, work, model_job)
+    finally:
+        bg.shutdown(wait=True)
+
+
+def _conformance(ctx, tier, thorough, replay, work, model_job):
     # ---- 2. generation by TLC ---------------------------------------------------------------------
     g = tlc("MC_JsonMap.tla", "Gen_JsonMap_cat.cfg", workers=1, timeout=300)
     require_prints("cat", g, 1)
@@ -1072,6 +1085,8 @@ def run(tier, replay):
                     raise vlib.ToolError("binding self-test failed: flipped expectation accepted")
                 break
 
+    if model_job is not None:
+        model_job.result()                 # the theorems on the model; re-raises its ToolError
     for what, obj, dev in sorted(findings, key=lambda f: len(f[0])):
         ctx.violation(what[:1200], obj, dev=dev)
 
